@@ -15,4 +15,4 @@ Extraction "model.ml"
   delete_files select_all excluded parse_rule render lookup
   run_sender_session echo recv_steps a_run daemon_request daemon_serve admits anon_exec root_resolve rlookup
   entry_step gen_entry' recv_ops run_ops touch_up_ops c_S_IFIFO c_S_IFSOCK c_S_IFCHR c_S_IFBLK c_chunkSize c_sendFile_chunkSize
-  no_accident_check build ins_bytes copies lits.
+  no_accident_check build ins_bytes copies lits client_names.
